@@ -13,6 +13,8 @@ FORBIDDEN = re.compile(r"\bsorry\b|\badmit\b|^axiom |native_decide|bv_decide|imp
 
 GOENV = dict(os.environ)
 GOENV.update({"GOFLAGS": "-mod=mod", "GOPROXY": "off"})
+# the go command's module index ignores -overlay files mounted into the module cache (hooks/mod__*)
+GOENV["GODEBUG"] = ",".join(x for x in (GOENV.get("GODEBUG", ""), "goindex=0") if x)
 for k in ("GOTOOLCHAIN", "GOSUMDB"):
     # GOTOOLCHAIN=local / GOSUMDB=off break the switch to the cached go1.24 toolchain module
     GOENV.pop(k, None)
@@ -44,6 +46,19 @@ class BuildError(Exception):
 
 # ----------------------------------------------------------------------------- Go side
 
+_MODDIR = {}
+
+
+def module_dir(mod):
+    """directory of a dependency of /repo (module cache), as the go command resolves it"""
+    if mod not in _MODDIR:
+        rc, out = run(["go", "list", "-m", "-f", "{{.Dir}}", mod], cwd=REPO, env=GOENV, timeout=300)
+        if rc != 0 or not out.strip():
+            raise BuildError("go list -m %s failed" % mod, out)
+        _MODDIR[mod] = out.strip().splitlines()[-1]
+    return _MODDIR[mod]
+
+
 def overlay_map():
     """harness/<d>/*.go -> /repo/internal/zverif/<d>/ ; harness/hooks/<a__b__c>/*.go -> /repo/a/b/c/zz_*.go"""
     rep = {}
@@ -54,9 +69,13 @@ def overlay_map():
             continue
         if d == "hooks":
             for pkg in sorted(os.listdir(p)):
+                base = os.path.join(REPO, pkg.replace("__", "/"))
+                if pkg.startswith("mod__"):
+                    # hooks/mod__<module__path>: mounted into that dependency's directory in the module cache
+                    base = module_dir(pkg[5:].replace("__", "/"))
                 for f in sorted(os.listdir(os.path.join(p, pkg))):
                     if f.endswith(".go"):
-                        rep[os.path.join(REPO, pkg.replace("__", "/"), "zz_" + f)] = os.path.join(p, pkg, f)
+                        rep[os.path.join(base, "zz_" + f)] = os.path.join(p, pkg, f)
         else:
             for root, _, files in os.walk(p):
                 for f in files:
